@@ -790,8 +790,17 @@ static void runMig(const MigCase& c, Ctx& ctx)
       double d = vfgeo::euclid(c.ndim, c.dst.p(t), c.src.p(i));
       if (d < dAll) { dAll = d; jAll = i; }
     }
-    bool masked = !c.sel1.empty() && !c.sel1[(size_t)jAll];
-    bool outside = dmaxCrit(c.ndim, c.dst.p(t), c.src.p(jAll), c.distType, c.dmax) > 1.;
+    int jAct = -1;
+    double dAct = 1e300;
+    for (int i = 0; i < n1; i++)
+    {
+      if (!c.sel1.empty() && !c.sel1[(size_t)i]) continue;
+      double d = vfgeo::euclid(c.ndim, c.dst.p(t), c.src.p(i));
+      if (d < dAct) { dAct = d; jAct = i; }
+    }
+    // the nearest active row lies outside dmax although a farther one lies inside: the dmax question, whatever the masks
+    bool outside = jAct >= 0 && dmaxCrit(c.ndim, c.dst.p(t), c.src.p(jAct), c.distType, c.dmax) > 1.;
+    bool masked = !outside && !c.sel1.empty() && !c.sel1[(size_t)jAll];
     maskedNearest = maskedNearest || masked;
     nCmp++;
     if (!same)
